@@ -212,7 +212,34 @@ func c16Items(r *rand.Rand, s *model.Schema, split bool, lateOK bool) []*defItem
 		it.text = model.TypeSDL(base, o, false)
 		it.final = t
 		if ext != nil {
-			it.exts = append(it.exts, model.TypeSDL(ext, o, true))
+			// sometimes the extension itself arrives as two extend blocks
+			e1, e2 := ext, (*model.TypeDef)(nil)
+			if r.Intn(2) == 0 && len(ext.Interfaces) == 0 { // (an `implements` must arrive together with all the fields it asks for)
+				a, b := *ext, *ext
+				b.Interfaces, b.Dirs = nil, nil
+				switch {
+				case len(ext.Fields) >= 2:
+					k := 1 + r.Intn(len(ext.Fields)-1)
+					a.Fields, b.Fields = ext.Fields[:k], ext.Fields[k:]
+					e1, e2 = &a, &b
+				case len(ext.Values) >= 2:
+					k := 1 + r.Intn(len(ext.Values)-1)
+					a.Values, b.Values = ext.Values[:k], ext.Values[k:]
+					e1, e2 = &a, &b
+				case len(ext.Inputs) >= 2:
+					k := 1 + r.Intn(len(ext.Inputs)-1)
+					a.Inputs, b.Inputs = ext.Inputs[:k], ext.Inputs[k:]
+					e1, e2 = &a, &b
+				case len(ext.Members) >= 2:
+					k := 1 + r.Intn(len(ext.Members)-1)
+					a.Members, b.Members = ext.Members[:k], ext.Members[k:]
+					e1, e2 = &a, &b
+				}
+			}
+			it.exts = append(it.exts, model.TypeSDL(e1, o, true))
+			if e2 != nil {
+				it.exts = append(it.exts, model.TypeSDL(e2, o, true))
+			}
 			m := *base
 			m.Fields = append(append([]*model.FieldDef{}, base.Fields...), ext.Fields...)
 			m.Interfaces = append(append([]string{}, base.Interfaces...), ext.Interfaces...)
@@ -252,6 +279,7 @@ type arrangement struct {
 	how   string
 	loads []string
 	final *model.Schema // the definition set with every type's members in the order the arrangement merges them (nil: as given)
+	files map[string]string // when set: one Root.ParseFS call over these files instead of the loads
 }
 
 // mergedSchema is s with the types replaced by the items' merged forms.
@@ -275,7 +303,7 @@ func c16Arrange(r *rand.Rand, s *model.Schema, mode int) arrangement {
 		for _, it := range items {
 			b.WriteString(it.text + "\n")
 		}
-		return arrangement{"original order, one document", []string{b.String()}, nil}
+		return arrangement{how: "original order, one document", loads: []string{b.String()}, final: nil}
 	case 1: // random permutation, one document
 		items := c16Items(r, s, false, false)
 		r.Shuffle(len(items), func(i, j int) { items[i], items[j] = items[j], items[i] })
@@ -283,7 +311,7 @@ func c16Arrange(r *rand.Rand, s *model.Schema, mode int) arrangement {
 		for _, it := range items {
 			b.WriteString(it.text + "\n")
 		}
-		return arrangement{"permutation, one document", []string{b.String()}, nil}
+		return arrangement{how: "permutation, one document", loads: []string{b.String()}, final: nil}
 	case 2: // members moved into extend blocks, permuted (an extend block anywhere after... ggql applies extends after all types of the document)
 		items := c16Items(r, s, true, false)
 		r.Shuffle(len(items), func(i, j int) { items[i], items[j] = items[j], items[i] })
@@ -298,22 +326,39 @@ func c16Arrange(r *rand.Rand, s *model.Schema, mode int) arrangement {
 				parts = append(parts[:k], append([]string{e}, parts[k:]...)...)
 			}
 		}
-		return arrangement{"extend blocks, permuted, one document", []string{strings.Join(parts, "\n")}, mergedSchema(s, items)}
+		return arrangement{how: "extend blocks, permuted, one document", loads: []string{strings.Join(parts, "\n")}, final: mergedSchema(s, items)}
+	case 6: // the definitions (members also in extend blocks) spread over the files of a file system, loaded by one ParseFS call
+		items := c16Items(r, s, true, false)
+		nf := 2 + r.Intn(3)
+		files := map[string]string{"readme.txt": "not a schema {"}
+		put := func(text string) {
+			fn := fmt.Sprintf("s%d.graphql", r.Intn(nf))
+			files[fn] += text + "\n"
+		}
+		for _, it := range items {
+			put(it.text)
+			for _, e := range it.exts {
+				put(e)
+			}
+		}
+		return arrangement{how: fmt.Sprintf("ParseFS over %d files", len(files)-1), files: files}
 	case 5: // every definition in the first load, then each late extension as a load of its own (no new type arrives with it)
 		items := c16Items(r, s, true, true)
 		var first, later []string
 		for _, it := range items {
 			first = append(first, it.text)
-			for _, e := range it.exts {
-				if it.late {
-					later = append(later, e)
-				} else {
-					first = append(first, e)
-				}
+			if !it.late {
+				first = append(first, it.exts...)
 			}
 		}
-		r.Shuffle(len(later), func(i, j int) { later[i], later[j] = later[j], later[i] })
-		return arrangement{fmt.Sprintf("%d successive loads: all definitions, then one extension per load", 1+len(later)), append([]string{strings.Join(first, "\n")}, later...), mergedSchema(s, items)}
+		// the late extensions in a random order of their types; the blocks of one type keep their order (the expected
+		// member order, arrangement.final, is base + first block + second block)
+		for _, ii := range r.Perm(len(items)) {
+			if items[ii].late {
+				later = append(later, items[ii].exts...)
+			}
+		}
+		return arrangement{how: fmt.Sprintf("%d successive loads: all definitions, then one extension per load", 1+len(later)), loads: append([]string{strings.Join(first, "\n")}, later...), final: mergedSchema(s, items)}
 	default: // partition into 2-4 successive loads that keep references resolvable
 		items := c16Items(r, s, mode == 4, true)
 		nl := 2 + r.Intn(3)
@@ -339,10 +384,10 @@ func c16Arrange(r *rand.Rand, s *model.Schema, mode int) arrangement {
 			docs[load[it.name]] = append(docs[load[it.name]], it.text)
 		}
 		for _, it := range items {
+			k := load[it.name] // same load as the base: ggql applies the extensions of a document after its types
 			for _, e := range it.exts {
-				k := load[it.name] // same load as the base: ggql applies the extensions of a document after its types
 				if it.late {
-					k += r.Intn(nl - load[it.name])
+					k += r.Intn(nl - k) // a second block of the same type never arrives before the first
 				}
 				docs[k] = append(docs[k], e)
 			}
@@ -353,13 +398,30 @@ func c16Arrange(r *rand.Rand, s *model.Schema, mode int) arrangement {
 				continue
 			}
 			r.Shuffle(len(d), func(i, j int) { d[i], d[j] = d[j], d[i] })
+			// two extend blocks of one type keep their order (arrangement.final lists the members in that order)
+			for _, it := range items {
+				if len(it.exts) == 2 {
+					i1, i2 := -1, -1
+					for di, t := range d {
+						if t == it.exts[0] {
+							i1 = di
+						}
+						if t == it.exts[1] {
+							i2 = di
+						}
+					}
+					if i1 >= 0 && i2 >= 0 && i1 > i2 {
+						d[i1], d[i2] = d[i2], d[i1]
+					}
+				}
+			}
 			loads = append(loads, strings.Join(d, "\n"))
 		}
 		how := fmt.Sprintf("%d successive loads", len(loads))
 		if mode == 4 {
 			how += " with extend blocks"
 		}
-		return arrangement{how, loads, mergedSchema(s, items)}
+		return arrangement{how: how, loads: loads, final: mergedSchema(s, items)}
 	}
 }
 
@@ -375,6 +437,18 @@ type c16Outcome struct {
 func c16Run(a arrangement) c16Outcome {
 	root := ggql.NewRoot(&c15Root{Query: &c15Obj{}, Mutation: &c15Obj{}, Subscription: &c15Obj{}})
 	var out c16Outcome
+	if a.files != nil {
+		var err error
+		pv, _ := run.Protect(func() { err = root.ParseFS(&faultyFS{files: a.files, failOpen: -1, failRead: -1, failClose: -1}, "*.graphql") })
+		if pv != nil {
+			out.err = fmt.Sprintf("ParseFS panics: %v", pv)
+			return out
+		}
+		if err != nil {
+			out.err = fmt.Sprintf("ParseFS: %v", err)
+			return out
+		}
+	}
 	for li, l := range a.loads {
 		var err error
 		pv, _ := run.Protect(func() { err = root.ParseString(l) })
@@ -456,7 +530,7 @@ func sortIntro(v interface{}) interface{} {
 }
 
 func runC16(c *run.Ctx) {
-	c.Rule = "one generated well-formed definition set is loaded in up to 12 arrangements: model order; random permutations; members (fields, values, input fields, union members, interfaces, type directives, the mutation root) " +
+	c.Rule = "one generated well-formed definition set is loaded in up to 14 arrangements: model order; random permutations; members (fields, values, input fields, union members, interfaces, type directives, the mutation root) " +
 		"moved into extend blocks; partitions into 2-4 successive loads that keep references resolvable, with and without extend blocks; sets are steered to directive uses before/after their definition with defaulted " +
 		"arguments, a type and a directive sharing a name, root operation types arriving in later loads, explicit and extended schema blocks. Oracle: all arrangements accept or all reject; canonical schemas equal " +
 		"(after filling directive-argument defaults, the normalisation the statement allows); the full introspection answer equal with name-keyed lists; a fixed request set equal. Non-trivial = the set has >= 6 definitions; distinct by SDL"
@@ -504,8 +578,8 @@ func runC16(c *run.Ctx) {
 			// an extension that makes an already loaded, valid type ill-formed: refused in one document, so it must be
 			// refused as a later load too
 			if ext, what := c16BadExtension(r, ms); ext != "" {
-				one := c16Run(arrangement{"one document", []string{key + "\n" + ext}, nil})
-				two := c16Run(arrangement{"base, then the extension", []string{key, ext}, nil})
+				one := c16Run(arrangement{how: "one document", loads: []string{key + "\n" + ext}, final: nil})
+				two := c16Run(arrangement{how: "base, then the extension", loads: []string{key, ext}, final: nil})
 				c.Bucket("steering", "late-ill-formed-extension:"+what)
 				c.Count("arrangements_loaded", 2)
 				if one.accepted != two.accepted {
@@ -518,7 +592,7 @@ func runC16(c *run.Ctx) {
 		}
 		var first *c16Outcome
 		var firstArr arrangement
-		modes := []int{0, 1, 1, 2, 2, 3, 3, 3, 4, 4, 5, 5}
+		modes := []int{0, 1, 1, 2, 2, 3, 3, 3, 4, 4, 5, 6, 5, 6}
 		for ai, mode := range modes {
 			arr := c16Arrange(c.Rand(i*100+ai+1), ms, mode)
 			out := c16Run(arr)
